@@ -280,6 +280,20 @@ def _worker(args):
             # a crash of the harness itself, never a verdict
             acc.harness_error(f"shard {idx} {shard!r}: {type(e).__name__}: {e}\n{traceback.format_exc()[-1500:]}")
     acc.counters["shard_cpu_s_x1000"] += int((time.time() - t0) * 1000)
+    from . import REENTRY
+
+    if REENTRY["on"]:
+        acc.counters["calls_made_from_the_logging_handler"] += REENTRY["calls"]
+        REENTRY["calls"] = 0
+        if REENTRY["mismatch"] is not None:
+            mm, REENTRY["mismatch"] = REENTRY["mismatch"], None
+            try:
+                acc.violation(
+                    {"oracle": "call_made_from_a_logging_handler_gives_what_it_gives_alone", "logger": mm["logger"]},
+                    {"case": {"_shard": _listify(shard), "_tier": tier}, "observed": mm["observed"], "during_record": mm["during_record"], "expected": repr(REENTRY["ref"])[:600]},
+                )
+            except TooManyViolations:
+                pass
     return idx, acc
 
 
@@ -513,6 +527,7 @@ ENVIRONMENTS = [
     ("hash seed 10, submodules imported in reverse order, collector off", {"PYTHONHASHSEED": "10", "VERIF_ENV_PREPARE": "imports-reversed gc-off"}, []),
     ("hash seed 11, collector eager, python -O", {"PYTHONHASHSEED": "11", "VERIF_ENV_PREPARE": "gc-eager"}, ["-O"]),
     ("hash seed 12, integer-string limit lowered to 640 digits after import", {"PYTHONHASHSEED": "12", "VERIF_ENV_PREPARE": "intmax-640-after-import"}, []),
+    ("hash seed 13, a logging handler that uses the library at every record", {"PYTHONHASHSEED": "13", "VERIF_ENV_PREPARE": "reentrant-logging", "VERIF_LOGGING": "on"}, []),
 ]
 
 
@@ -579,6 +594,7 @@ def finish_environments(pending, acc):
         for a in accs:
             n += a.evaluations
             acc.counters["environment_cases"] += a.evaluations
+            acc.counters["calls_made_from_the_logging_handler"] += a.counters.get("calls_made_from_the_logging_handler", 0)
             acc.traces += a.traces
             acc.raised.update(a.raised)
             acc.caps |= a.caps
